@@ -163,11 +163,6 @@ func pathOfD(v ssa.Value, d int) string {
 			if t := aliasTarget(x.X); t != nil {
 				return pathOfD(t, d+1)
 			}
-			if fa, ok := x.X.(*ssa.FieldAddr); ok {
-				if t := localStructField(fa); t != nil {
-					return pathOfD(t, d+1)
-				}
-			}
 			return pathOfD(x.X, d+1)
 		}
 		if x.Op == token.ARROW {
@@ -1143,11 +1138,6 @@ func symRender(v ssa.Value, env *renderEnv, d int) string {
 			if t := aliasTarget(x.X); t != nil {
 				return rec(t)
 			}
-			if fa, ok := x.X.(*ssa.FieldAddr); ok {
-				if t := localStructField(fa); t != nil {
-					return rec(t)
-				}
-			}
 			// a parameter spilled to the stack
 			if al, ok := x.X.(*ssa.Alloc); ok {
 				var only ssa.Value
@@ -2027,4 +2017,59 @@ func globalInitValue(w *World, g *ssa.Global) ssa.Value {
 		return nil
 	}
 	return val
+}
+
+// firstPos: the first valid source position among the instructions of b.
+func firstPos(b *ssa.BasicBlock) token.Pos {
+	for _, in := range b.Instrs {
+		if in.Pos().IsValid() {
+			return in.Pos()
+		}
+	}
+	return token.NoPos
+}
+
+// holdsAtOrViaFlag: pred holds for the facts at b, or b is entered under a boolean flag (a phi that is the
+// result of an inlined predicate: res = true on some edges, false on the others) and pred holds for the
+// facts on every incoming edge that carries the flag's value.  This is how "if hasAnyPrefix(tv, names)"
+// written through a helper states the same fact as the helper's body written in place.
+func holdsAtOrViaFlag(b *ssa.BasicBlock, pred func(facts []canonCond) bool) bool {
+	facts := factsAt(b)
+	if pred(facts) {
+		return true
+	}
+	for _, f := range facts {
+		if f.Op != token.ILLEGAL {
+			continue
+		}
+		ph, ok := f.V.(*ssa.Phi)
+		if !ok || !isBoolType(ph.Type()) {
+			continue
+		}
+		all, any := true, false
+		for _, vc := range valueCases(ph, nil) {
+			k, isC := vc.V.(*ssa.Const)
+			if isC && k.Value != nil && isBoolType(k.Type()) {
+				if (k.Value.ExactString() == "true") != f.True {
+					continue // this edge does not lead here
+				}
+			}
+			any = true
+			var cf []canonCond
+			for _, cd := range vc.Conds {
+				cf = append(cf, canonOf(cd))
+			}
+			if !isC {
+				// the flag is a computed boolean on this edge: it is itself a fact with the flag's sense
+				cf = append(cf, canonOf(Cond{V: vc.V, Sense: f.True}))
+			}
+			if !pred(cf) {
+				all = false
+			}
+		}
+		if any && all {
+			return true
+		}
+	}
+	return false
 }
